@@ -675,7 +675,9 @@ theorem walk_sound (els : List Token) : ∀ (n : Nat) (t : Token) (path : List T
     split at h
     · cases h
     · rename_i hv
-      have hv' : t.valid C = true := by simpa using hv
+      have hv' : t.valid C = true := by
+        have : t.chash.length = g.length ∧ t.valid C = true := by simpa using hv
+        exact this.2
       split at h
       · rename_i hg
         have hg' : t.prev = g := by simpa using hg
@@ -761,10 +763,14 @@ theorem walk_els_snoc (els : List Token) (r : Token) : ∀ (n : Nat) (t : Token)
     stored token has one within `budget` -/
 theorem walk_hanging {els : List Token} {n : Nat}
     (hA : ∀ e ∈ els, (walk C g els n e).isSome = true) {t : Token}
-    (hv : t.valid C = true) (hp : t.prev = g ∨ hasId C els t.prev = true) :
+    (hok : t.ok C g = true) (hp : t.prev = g ∨ hasId C els t.prev = true) :
     (walk C g els (n + 1) t).isSome = true := by
+  have hv : t.valid C = true := ok_valid C g hok
+  have hc : (t.chash.length == g.length) = true := by
+    have := ok_sized C g hok
+    simp only [Token.sized, Bool.and_eq_true] at this; exact this.2
   rw [walk]
-  simp only [hv, Bool.not_true, Bool.false_eq_true, ↓reduceIte]
+  simp only [hv, hc, Bool.and_self, Bool.not_true, Bool.false_eq_true, ↓reduceIte]
   by_cases hg : (t.prev == g) = true
   · simp [hg]
   · rw [if_neg hg]
@@ -794,7 +800,7 @@ theorem chained_walk {els : List Token} (h : Chained C g els) :
         rw [walk_els_snoc els r _ e path (walk_budget_le els (Nat.le_succ _) hw)]; rfl
     · have he' : e = r := by simpa using h1
       subst he'
-      have := walk_hanging (C := C) (g := g) ih (ok_valid C g hv) hp
+      have := walk_hanging (C := C) (g := g) ih hv hp
       cases hw : walk C g els (els.length + 1) e with
       | none => simp [hw] at this
       | some path => rw [walk_els_snoc els e _ e path hw]; rfl
@@ -1337,5 +1343,205 @@ theorem lookup_of_hasId {els : List Token} {h : Bytes} (hh : hasId C els h = tru
   | none => simp [hl] at this
   | some x => exact ⟨x, rfl⟩
 
+
+/-! ### persistence (PseudonymManager): stored rows and reloaded trees stay inside the fixpoint -/
+
+/-- soundness alone, for trees that are NOT known to be a chain (elements loaded from a database in any order) -/
+theorem drain_wsound (seen els unc stack : List Token)
+    (h1 : ∀ e ∈ els, InTree C g seen e) (h2 : ∀ u ∈ unc, Off seen u) (h3 : ∀ r ∈ stack, Off seen r) :
+    (∀ e ∈ (drain C g cap els unc stack).els, InTree C g seen e) ∧
+    (∀ u ∈ (drain C g cap els unc stack).unc, Off seen u) := by
+  fun_induction drain C g cap els unc stack with
+  | case1 els unc => exact ⟨h1, h2⟩
+  | case2 els unc r rest hv ih => exact ih h1 h2 (fun x hx => h3 x (List.mem_cons_of_mem _ hx))
+  | case3 els unc r rest hv ho ih =>
+    refine ih h1 ?_ (fun x hx => h3 x (List.mem_cons_of_mem _ hx))
+    intro u hu
+    rcases mem_uncAdd cap hu with h | rfl
+    · exact h2 u h
+    · exact h3 u List.mem_cons_self
+  | case4 els unc r rest hv ho hd ih =>
+    refine ih ?_ h2 (fun x hx => h3 x (List.mem_cons_of_mem _ hx))
+    intro e he
+    obtain ⟨e0, h0, hc⟩ := mem_absorb C he
+    exact (h1 e0 h0).of_core hc
+  | case5 els unc r rest hv ho hd ih =>
+    have hv' : r.ok C g = true := by simpa using hv
+    have hroff : Off seen r := h3 r List.mem_cons_self
+    have hpar : r.prev = g ∨ hasId C els r.prev = true := by
+      by_cases hg : r.prev = g
+      · exact Or.inl hg
+      · right
+        cases hh : hasId C els r.prev with
+        | true => rfl
+        | false => exact absurd (by simp [hg, hh]) ho
+    have hrTree : InTree C g seen r := by
+      rcases hpar with hg | hp
+      · exact .root r hroff hv' hg
+      · obtain ⟨p, hp1, hp2⟩ := (hasId_iff C els r.prev).mp hp
+        exact .child r p hroff hv' (h1 p hp1) hp2
+    refine ih ?_ ?_ ?_
+    · intro e he
+      rcases List.mem_append.mp he with h | h
+      · exact h1 e h
+      · have : e = r := by simpa using h
+        exact this ▸ hrTree
+    · intro u hu; exact h2 u (mem_othersOf.mp hu).1
+    · intro x hx
+      rcases List.mem_append.mp hx with h | h
+      · exact h2 x (mem_kidsOf.mp h).1
+      · exact h3 x (List.mem_cons_of_mem _ h)
+
+theorem gatherAll_wsound (seen : List Token) (tr : Tree) (ts : List Token)
+    (h1 : ∀ e ∈ tr.els, InTree C g seen e) (h2 : ∀ u ∈ tr.unc, Off seen u) :
+    (∀ e ∈ (gatherAll C g cap tr ts).els, InTree C g (seen ++ ts) e) ∧
+    (∀ u ∈ (gatherAll C g cap tr ts).unc, Off (seen ++ ts) u) := by
+  induction ts generalizing seen tr with
+  | nil => simpa [gatherAll] using And.intro h1 h2
+  | cons t ts ih =>
+    have hsub : ∀ x, x ∈ seen → x ∈ seen ++ [t] := fun x hx => List.mem_append_left _ hx
+    have := drain_wsound (C := C) (g := g) (cap := cap) (seen ++ [t]) tr.els tr.unc [t]
+      (fun e he => (h1 e he).mono hsub) (fun u hu => (h2 u hu).mono hsub)
+      (fun r hr => by
+        have : r = t := by simpa using hr
+        exact this ▸ Off.self (by simp))
+    have h := ih (seen ++ [t]) (gather C g cap tr t) this.1 this.2
+    simpa [gatherAll, List.append_assoc] using h
+
+theorem mem_dictSet {els : List Token} {t x : Token} (h : x ∈ dictSet C els t) : x ∈ els ∨ x = t := by
+  unfold dictSet at h
+  split at h
+  · obtain ⟨y, hy, rfl⟩ := List.mem_map.mp h
+    split
+    · exact Or.inr rfl
+    · exact Or.inl hy
+  · rcases List.mem_append.mp h with h | h
+    · exact Or.inl h
+    · right; simpa using h
+
+theorem mem_dbInsert {db : List Token} {t x : Token} (h : x ∈ dbInsert db t) : x ∈ db ∨ x = t := by
+  unfold dbInsert at h
+  split at h
+  · exact Or.inl h
+  · rcases List.mem_append.mp h with h | h
+    · exact Or.inl h
+    · right; simpa using h
+
+theorem mem_foldl_dbInsert {db l : List Token} {x : Token} (h : x ∈ l.foldl dbInsert db) : x ∈ db ∨ x ∈ l := by
+  induction l generalizing db with
+  | nil => exact Or.inl h
+  | cons a l ih =>
+    rcases ih h with h1 | h1
+    · rcases mem_dbInsert h1 with h2 | h2
+      · exact Or.inl h2
+      · exact Or.inr (h2 ▸ List.mem_cons_self)
+    · exact Or.inr (List.mem_cons_of_mem _ h1)
+
+/-- invariant of the manager: tree elements and stored rows are in the fixpoint, waiting tokens were offered -/
+structure PInv (C : Crypto) (g : Bytes) (seen : List Token) (p : Pseudo) : Prop where
+  els : ∀ e ∈ p.tree.els, InTree C g seen e
+  unc : ∀ u ∈ p.tree.unc, Off seen u
+  db : ∀ d ∈ p.db, InTree C g seen d
+
+theorem PInv.mono {seen seen' : List Token} {p : Pseudo} (h : ∀ t, t ∈ seen → t ∈ seen') (I : PInv C g seen p) :
+    PInv C g seen' p :=
+  ⟨fun e he => (I.els e he).mono h, fun u hu => (I.unc u hu).mono h, fun d hd => (I.db d hd).mono h⟩
+
+theorem storeNew_inv {seen : List Token} {p : Pseudo} (known : List Bytes) (I : PInv C g seen p) :
+    PInv C g seen (p.storeNew C known) := by
+  refine ⟨I.els, I.unc, ?_⟩
+  intro d hd
+  rcases mem_foldl_dbInsert hd with h | h
+  · exact I.db d h
+  · exact I.els d (List.mem_filter.mp h).1
+
+theorem restart_inv {seen : List Token} {p : Pseudo} (I : PInv C g seen p) : PInv C g seen (p.restart C) := by
+  refine ⟨?_, by simp [Pseudo.restart], I.db⟩
+  have key : ∀ (l els : List Token), (∀ e ∈ els, InTree C g seen e) → (∀ d ∈ l, InTree C g seen d) →
+      ∀ e ∈ l.foldl (fun els t => dictSet C els (Token.ofDatabaseTuple C t.prev t.sig t.chash t.content)) els,
+        InTree C g seen e := by
+    intro l
+    induction l with
+    | nil => intro els h _; exact h
+    | cons a l ih =>
+      intro els h hl
+      apply ih
+      · intro e he
+        rcases mem_dictSet he with h1 | h1
+        · exact h e h1
+        · have hc : (Token.ofDatabaseTuple C a.prev a.sig a.chash a.content).core = a.core := by
+            cases hcon : a.content with
+            | none => simp [Token.ofDatabaseTuple, Token.ofHash, Token.core]
+            | some c =>
+              simp only [Token.ofDatabaseTuple]
+              rw [receiveContent_core]; rfl
+          rw [h1]
+          exact (hl a List.mem_cons_self).of_core hc.symm
+      · exact fun d hd => hl d (List.mem_cons_of_mem _ hd)
+  exact key p.db [] (by simp) I.db
+
+theorem step_inv (seen : List Token) (p : Pseudo) (ev : PEvent) (I : PInv C g seen p) :
+    PInv C g (seen ++ ev.offers C.sigLen) (p.step C g cap ev) := by
+  cases ev with
+  | restart =>
+    simpa [PEvent.offers, Pseudo.step] using restart_inv I
+  | substantiate s =>
+    simp only [PEvent.offers, Pseudo.step, Pseudo.substantiate]
+    apply storeNew_inv
+    have hsub : ∀ t, t ∈ seen → t ∈ seen ++ (parseChunks C.sigLen s).1 := fun t ht => List.mem_append_left _ ht
+    have := gatherAll_wsound (C := C) (g := g) (cap := cap) seen p.tree (parseChunks C.sigLen s).1 I.els I.unc
+    refine ⟨?_, ?_, fun d hd => (I.db d hd).mono hsub⟩
+    · simpa [unserializePublic, gatherFlags_fst] using this.1
+    · simpa [unserializePublic, gatherFlags_fst] using this.2
+  | credential t =>
+    simp only [PEvent.offers, Pseudo.step, Pseudo.addCredential]
+    have hsub : ∀ x, x ∈ seen → x ∈ seen ++ [t] := fun x hx => List.mem_append_left _ hx
+    have := gatherAll_wsound (C := C) (g := g) (cap := cap) seen p.tree [t] I.els I.unc
+    have hg : gatherAll C g cap p.tree [t] = gather C g cap p.tree t := rfl
+    rw [hg] at this
+    split
+    · rename_i hk
+      apply storeNew_inv
+      refine ⟨this.1, this.2, ?_⟩
+      intro d hd
+      rcases mem_dbInsert hd with h | h
+      · exact (I.db d h).mono hsub
+      · -- the offered token was accepted: signed, sized, and its parent is genesis or an element
+        subst h
+        have hoff : Off (seen ++ [d]) d := Off.self (by simp)
+        unfold gatherKind at hk
+        by_cases hv : (!d.ok C g) = true
+        · simp [hv, Kind.isSome] at hk
+        · have hv' : d.ok C g = true := by simpa using hv
+          by_cases ho : (d.prev != g && !hasId C p.tree.els d.prev) = true
+          · simp [hv, ho, Kind.isSome] at hk
+          · by_cases hg : d.prev = g
+            · exact .root d hoff hv' hg
+            · have hp : hasId C p.tree.els d.prev = true := by
+                cases hh : hasId C p.tree.els d.prev with
+                | true => rfl
+                | false => exact absurd (by simp [hg, hh]) ho
+              obtain ⟨q, hq1, hq2⟩ := (hasId_iff C _ _).mp hp
+              exact .child d q hoff hv' ((I.els q hq1).mono hsub) hq2
+    · exact ⟨this.1, this.2, fun d hd => (I.db d hd).mono hsub⟩
+
+/-- the manager after a history of events, started empty -/
+def Pseudo.run (C : Crypto) (g : Bytes) (cap : Nat) (evs : List PEvent) : Pseudo :=
+  evs.foldl (Pseudo.step C g cap) Pseudo.fresh
+
+theorem run_inv (evs : List PEvent) :
+    PInv C g (evs.flatMap (PEvent.offers C.sigLen)) (Pseudo.run C g cap evs) := by
+  have key : ∀ (evs : List PEvent) (seen : List Token) (p : Pseudo), PInv C g seen p →
+      PInv C g (seen ++ evs.flatMap (PEvent.offers C.sigLen)) (evs.foldl (Pseudo.step C g cap) p) := by
+    intro evs
+    induction evs with
+    | nil => intro seen p I; simpa using I
+    | cons ev evs ih =>
+      intro seen p I
+      have := ih _ _ (step_inv (cap := cap) seen p ev I)
+      simpa [List.flatMap_cons, List.append_assoc] using this
+  have := key evs [] Pseudo.fresh ⟨by simp [Pseudo.fresh, Tree.empty], by simp [Pseudo.fresh, Tree.empty],
+    by simp [Pseudo.fresh]⟩
+  simpa [Pseudo.run] using this
 
 end Ipv8.C16
